@@ -109,9 +109,11 @@ func (o sOp) String() string {
 	return o.Op
 }
 
-func sdbAlphabet(maxDepth int) []sOp {
+// sdbAlphabet: nA = number of addresses the alphabet operates on (the
+// single-account exploration uses 1; the canonical key always covers all).
+func sdbAlphabet(maxDepth, nA int) []sOp {
 	var a []sOp
-	for ad := 0; ad < nAddr; ad++ {
+	for ad := 0; ad < nA; ad++ {
 		a = append(a, sOp{"AddBalance", ad, 0, 0}, sOp{"AddBalance", ad, addAmt, 0}, sOp{"SubBalance", ad, addAmt, 0},
 			sOp{"SetNonce", ad, 0, 0}, sOp{"SetCode", ad, 0, 0})
 		for s := 0; s < nSlot; s++ {
@@ -174,6 +176,14 @@ type mState struct {
 	// trie holds underneath the pending changes).
 	BaseLive [nAddr]bool
 	Base     [nAddr]mAcct
+	// Rev[a]: in the current transaction a RevertToSnapshot rolled back at
+	// least one call that addressed account a (index nAddr: AddLog/AddRefund).
+	// Not observable through getters (the content is that of the snapshot); part
+	// of the canonical key so that a state reached by a rollback is not merged
+	// with the state the snapshot was taken in: what follows a rollback
+	// (further calls, Finalise, Commit) is explored on the instance that really
+	// performed the rollback.
+	Rev [nAddr + 1]bool
 }
 
 // sModel: current state + stack of copies taken at Snapshot (arrays only, so
@@ -181,6 +191,13 @@ type mState struct {
 type sModel struct {
 	cur   mState
 	snaps []mState
+	since [][nAddr + 1]bool // per live snapshot: accounts addressed since it was taken
+}
+
+func (m *sModel) mark(i int) {
+	for s := range m.since {
+		m.since[s][i] = true
+	}
 }
 
 func (m *sModel) enabled(o sOp) bool {
@@ -221,8 +238,9 @@ func (m *sModel) finalise() (deleted int) {
 	m.cur.BaseLive, m.cur.Base = m.cur.Live, m.cur.A
 	m.cur.Recreated = [nAddr]bool{}
 	m.cur.Touched = [nAddr]bool{}
+	m.cur.Rev = [nAddr + 1]bool{}
 	m.cur.Refund = 0
-	m.snaps = nil
+	m.snaps, m.since = nil, nil
 	return
 }
 
@@ -239,8 +257,14 @@ func (m *sModel) apply(o sOp) string {
 	switch o.Op {
 	case "AddBalance", "SubBalance", "SetNonce", "SetCode", "SetState", "CreateAccount":
 		m.cur.Touched[o.A] = true
+		m.mark(o.A)
 	case "Suicide":
 		m.cur.Touched[o.A] = m.cur.Touched[o.A] || m.cur.Live[o.A]
+		if m.cur.Live[o.A] {
+			m.mark(o.A)
+		}
+	case "AddLog", "AddRefund":
+		m.mark(nAddr)
 	}
 	switch o.Op {
 	case "AddBalance":
@@ -304,26 +328,54 @@ func (m *sModel) apply(o sOp) string {
 		return ""
 	case "Snapshot":
 		m.snaps = append(m.snaps, m.cur)
+		m.since = append(m.since, [nAddr + 1]bool{})
 		return fmt.Sprintf("depth=%d", len(m.snaps))
 	case "Revert":
-		eff := fmt.Sprintf("pos=%d/of=%d/changed=%v", o.X, len(m.snaps), m.snaps[o.X] != m.cur)
+		undone := m.since[o.X]
+		eff := fmt.Sprintf("pos=%d/of=%d/changed=%v/undone=%v/over-pending=%v", o.X, len(m.snaps), m.snaps[o.X] != m.cur, undone != [nAddr + 1]bool{}, m.revertsOverPending(o.X))
 		m.cur = m.snaps[o.X]
-		m.snaps = m.snaps[:o.X]
+		for i, u := range undone {
+			m.cur.Rev[i] = m.cur.Rev[i] || u
+		}
+		m.snaps, m.since = m.snaps[:o.X], m.since[:o.X]
 		return eff
 	case "IntermediateRoot":
-		ns := len(m.snaps)
+		ns, rb := len(m.snaps), m.rolledBackOverPending()
 		d := m.finalise()
 		m.cur.IR = true
-		return fmt.Sprintf("deleted=%d/snaps=%d", d, ns)
+		return fmt.Sprintf("deleted=%d/snaps=%d/rollback-over-pending=%v", d, ns, rb)
 	case "CommitReopen":
-		ns := len(m.snaps)
+		ns, rb := len(m.snaps), m.rolledBackOverPending()
 		d := m.finalise()
 		m.cur.Logs = 0
 		m.cur.IR = false
-		return fmt.Sprintf("v%d/deleted=%d/snaps=%d", o.X, d, ns)
+		return fmt.Sprintf("v%d/deleted=%d/snaps=%d/rollback-over-pending=%v", o.X, d, ns, rb)
 	}
 	core.Fatal("unknown statedb op %q", o.Op)
 	return ""
+}
+
+// revertsOverPending: reverting to snapshot x rolls back a call on an account
+// that already had a pending (surviving) change when the snapshot was taken.
+func (m *sModel) revertsOverPending(x int) bool {
+	for a := 0; a < nAddr; a++ {
+		if m.since[x][a] && m.snaps[x].Touched[a] {
+			return true
+		}
+	}
+	return false
+}
+
+// rolledBackOverPending: some account has a pending change of the current
+// transaction AND a later call on it was rolled back (the shape "modify A;
+// Snapshot; modify A; RevertToSnapshot" followed by a finalisation).
+func (m *sModel) rolledBackOverPending() bool {
+	for a := 0; a < nAddr; a++ {
+		if m.cur.Rev[a] && m.cur.Touched[a] {
+			return true
+		}
+	}
+	return false
 }
 
 func encState(b *bytes.Buffer, s *mState) {
@@ -345,6 +397,13 @@ func encState(b *bytes.Buffer, s *mState) {
 	}
 	if s.IR {
 		f |= 0x40
+	}
+	b.WriteByte(f)
+	f = 0
+	for i, r := range s.Rev {
+		if r {
+			f |= 1 << uint(i)
+		}
 	}
 	b.WriteByte(f)
 }
@@ -378,7 +437,7 @@ type skey [12]byte
 // observe now (accounts, storage, committed storage, suicide flags, refund,
 // logs) plus the same for every live snapshot, i.e. everything they can observe
 // after any sequence of reverts, plus history shape that getters cannot see
-// (Base, Recreated, Stale, IR, Touched — see mState): pending-in-journal versus
+// (Base, Recreated, Stale, IR, Touched, Rev — see mState): pending-in-journal versus
 // finalised versus committed-and-reopened states, and equal pending content
 // over different finalised content, are explored separately.
 func (m *sModel) key() skey {
